@@ -116,6 +116,39 @@ def gen_glob(rng):
     return bytes(rng.choice(SRC + b"ab^") for _ in range(rng.randint(1, 7)))     # malformed stream
 
 
+def gen_multi_literal_set(rng):
+    """several globs of the SAME multi-literal strategy (prefix or suffix tables share one Aho-Corasick automaton and
+    one `longest` used to truncate the path) with literals of different lengths in random order, and the paths that
+    separate them: each literal alone, below and above other components"""
+    fam = rng.randint(0, 3)
+    base = bytes(rng.choice(b"ab.-A") for _ in range(5))
+    lens = rng.sample([1, 2, 3, 4, 5], rng.randint(2, 4))
+    if rng.random() < 0.5:
+        lens.sort(reverse=True)                    # the longer literal first
+    globs, paths = [], []
+    for n in lens:
+        if fam == 0:                                # suffix: *lit   (separators not literal)
+            l = base[-n:]
+            globs.append((4, b"*" + l))
+            paths += [l, b"a" + l, b"b/" + l, b"ab/a/" + l, l + b"a"]
+        elif fam == 1:                              # component suffix: **/c1/c2..  (any separator option)
+            comps = [bytes([base[i]]) + (b"b" if i % 2 else b"") for i in range(5 - n, 5)]
+            l = b"/".join(comps) if len(comps) > 1 else comps[0] + b"/" + comps[0]
+            globs.append((rng.choice([4, 6]), b"**/" + l))
+            paths += [l, b"a/" + l, b"a/b/" + l, b"x" + l, l + b"/a"]
+        elif fam == 2:                              # prefix: lit*
+            l = base[:n]
+            globs.append((4, l + b"*"))
+            paths += [l, l + b"a", l + b"/a/b", b"a" + l, l + b"ab/a/b"]
+        else:                                       # prefix with separator: lit/**
+            l = base[:n]
+            globs.append((rng.choice([4, 6]), l + b"/**"))
+            paths += [l, l + b"/a", l + b"/a/b/c", b"a/" + l + b"/a", l + b"a/b"]
+    if rng.random() < 0.3:
+        globs.insert(rng.randint(0, len(globs)), (gen_opts(rng), gen_glob(rng)))
+    return globs, paths
+
+
 def gen_opts(rng):
     n = rng.randint(0, 15)
     if rng.random() < 0.5:
@@ -139,6 +172,12 @@ def gen_long_path(rng):
 # are literal), always appended to the enumerated paths
 DEEP_PATHS = [b"a/b/c", b"a/b/c/d", b"a/a/b/c", b"ab/a/b", b"ab/a/b/c", b"b/a/b/c", b"a/b/a/b", b"a.b/a/b.a", b"A/a/b/c.a",
               b"a/b/c/", b"-/a/b", b"a-/b/a/b"]
+
+MULTI_CORPUS = [   # sets whose prefix / suffix tables hold literals of different lengths, longer first and shorter first
+    [(4, b"**/a/b/ab"), (4, b"**/b/ab")], [(4, b"**/b/ab"), (4, b"**/a/b/ab")], [(6, b"**/a.b/a/b"), (6, b"**/a/b"), (6, b"**/b")],
+    [(4, b"*abA"), (4, b"*bA")], [(4, b"*bA"), (4, b"*abA")], [(4, b"ab.-*"), (4, b"ab*")], [(4, b"ab*"), (4, b"ab.-*")],
+    [(4, b"ab/a/**"), (4, b"ab/**")], [(6, b"a/b/**"), (6, b"a/**"), (6, b"a/b/a/**")],
+]
 
 CORPUS = [  # (opts, glob): hand-written corner cases, run first
     (4, b"foo."), (4, b"*."), (4, b"**/a."), (4, b"[a]b."), (4, b"**/.."), (4, b"**/."), (4, b"*.a"), (6, b"*.a"),
@@ -417,6 +456,16 @@ def run(ctx):
                 gs.append(rng.choice(gs))          # duplicates: the same literal registered twice
         sets.append(gs)
     check_set(ctx, sets, 4, extras)
+    # --- 1203: directed sets for the shared prefix / suffix tables (different literal lengths, both orders)
+    msets, mpaths = [], []
+    for _ in range(ctx.count(120)):
+        gs, ps = gen_multi_literal_set(rng)
+        msets.append(gs)
+        mpaths += ps
+    mpaths = sorted(set(mpaths))
+    ctx.cov["multi_literal_sets"] = len(msets)
+    ctx.cov["multi_literal_paths"] = len(mpaths)
+    check_set(ctx, MULTI_CORPUS + msets, 3, DEEP_PATHS + mpaths)
     flush_pending(ctx)
     ctx.assumptions += [
         "regex-automata implements the meaning tmatch gives to the regex text globset emits (compared on every "
